@@ -30,6 +30,10 @@ for var in ("accumuDistance", "accumuTotalCycles", "accumuAccumulatedPower"):
     known("C08", "C08-R1-global-write", "fit.%s@%s" % (var, RM), w, wit)
     known("C09", "C09-R1-shared-write", "fit.%s@%s" % (var, RM), w + " (data race between concurrent Decode calls)", wit)
 
+known("C08", "C08-R1-global-write", "fit.accumuDistance/live-state",
+      "accumulator accumuDistance is package-level, never reset, and built with a roll-over width (12 bits): Records[i].Distance of a Decode depends on every Decode that ran before in the process (D11; the other two accumulators have mask 0 and always yield 0)",
+      "Decode testdata/python-fitparse/compressed-speed-distance.fit twice in one process: the second File's distances continue from the first File's last distance")
+
 # C07 view of D11: only the distance accumulator has a non-zero mask at HEAD, so only it makes the
 # decode of Encode's output differ from the File that was encoded.
 known("C07", "C07-R4-expansion-idempotent", "fit.accumuDistance",
